@@ -172,6 +172,8 @@ static inline int c_slots_post(const struct Arena* a, const uint8_t* ret, MB* cu
     if (!__CPROVER_same_object(h, cur0)) return 20 + i;
     if (__CPROVER_POINTER_OFFSET(h) < g_ptr_off0 || __CPROVER_POINTER_OFFSET(h) + ((uint64_t)16 << i) > sizeof(MB) + g_sz[0]) return 30 + i;
     if ((__CPROVER_POINTER_OFFSET(h) % 8) != 0) return 40 + i;
+    /* free memory is listed once: a piece carved out of the bump tail is no longer reachable through the bump pointer */
+    if (a->_current_block == cur0 && __CPROVER_POINTER_OFFSET(h) + ((uint64_t)16 << i) > __CPROVER_POINTER_OFFSET(a->_ptr)) return 50 + i;
   }
   return 0;
 }
